@@ -392,6 +392,7 @@ Proof.
     destruct (if Qeq_bool (s_pfrac (a_state a)) 0 then _ else _) as [pt sp]. cbn [fst]. btest; lra. }
   destruct (pregnant_slaughter st (a_state a) actual) as [pt sp]. cbn [fst] in PS.
   cbn [b_additive b_transfer b_other_death b_slaughter b_pop1 b_remaining b_ptot b_pbirth].
+  rewrite !Qred_correct.
   destruct AP as (A0 & P0 & P1 & P2 & A1 & T1 & T2).
   repeat split; try assumption; try reflexivity; try lra.
   - destruct A1 as [Z|[Z1 Z2]]; [nra|].
@@ -461,6 +462,7 @@ Proof.
   destruct (if Qeq_bool (st_red st) 0 && Qeq_bool (st_tfrac st) 1 && Qltb sd 10 then _ else _) as [pt pb].
   cbn [fst snd] in PT. destruct PT as [PT PB].
   cbn [c_hk_other c_hk_healthy c_hk_starving c_hk_total c_budget c_starve_death c_od_total c_pop c_ptot c_pbirth].
+  rewrite !Qred_correct.
   assert (SDa : sv - b_slaughter b <= 0 -> sd == 0).
   { intro H. subst sd. rewrite S2. rewrite S1a; [ring|]. subst sv0. lra. }
   assert (SDb : 0 <= sv - b_slaughter b -> sd == (sv - b_slaughter b) * st_starv st).
